@@ -67,7 +67,9 @@ S0 == [cfg |-> [access |-> "flat", old |-> 0, coop |-> TRUE, minEpoch |-> 0, per
        lastSyncT |-> -1,   \* virtual time of the latest non-final NotifySyncStarting
        shutdown |-> FALSE,
        phase |-> "run",    \* "run" | "post" (after a restart)
-       must |-> {}]        \* keys that have to be readable after the restart (C03)
+       must |-> {},        \* keys that have to be readable after the restart (C03)
+       listedSnap |-> {},  \* regions listed by the state being written
+       listed |-> {}]      \* regions listed by the state file that was written last
 
 \* instance names are logged as sequences of components (<<>> is the root)
 IsPrefix(a, b) == Len(a) <= Len(b) /\ SubSeq(b, 1, Len(a)) = a
@@ -178,6 +180,8 @@ NewBlock ==
     /\ (On("C04") /\ Ev.region >= 0) =>
            \A b \in DOMAIN s.blkRegion : s.blkRegion[b] = Ev.region =>
                (Get0(s.openR, b, 0) = 0 /\ (s.cfg.coop => Get0(s.openW, b, 0) = 0))
+    \* C04 (persistent list): nor is it handed out while the state file written last still lists it
+    /\ (On("C04") /\ Ev.ev = "NewBlock" /\ s.cfg.persistent) => Ev.region \notin s.listed
     \* C05: repeating a touch immediately allocates nothing
     /\ (On("C05") /\ Ev.ev = "NewBlock") => ~s.idem
     /\ s' = [s EXCEPT !.blkRegion = Put0(@, Ev.blk, Ev.region),
@@ -243,8 +247,8 @@ SyncStarting ==
                       !.lastSyncT = IF Ev.final THEN @ ELSE Ev.t]
 
 SyncCompleted == Ev.ev = "SyncCompleted" /\ s' = [s EXCEPT !.candSynced = s.cand]
-GetState == Ev.ev = "GetState" /\ s' = [s EXCEPT !.candState = s.candSynced]
-StateWritten == Ev.ev = "StateWritten" /\ s' = [s EXCEPT !.committed = s.candState]
+GetState == Ev.ev = "GetState" /\ s' = [s EXCEPT !.candState = s.candSynced, !.listedSnap = ToSet(Ev.regions)]
+StateWritten == Ev.ev = "StateWritten" /\ s' = [s EXCEPT !.committed = s.candState, !.listed = s.listedSnap]
 ShutdownEv == Ev.ev = "Shutdown" /\ s' = [s EXCEPT !.shutdown = TRUE]
 
 \* everything that can happen without a timer expiring has happened
@@ -275,7 +279,7 @@ Restart ==
     /\ s' = [s EXCEPT !.phase = "post", !.inflight = <<>>, !.allocs = 0, !.relsd = 0, !.pops = 0, !.touch = <<>>,
                       !.dets = {}, !.blkRegion = <<>>, !.openR = <<>>, !.openW = <<>>, !.wblk = <<>>, !.idem = FALSE,
                       !.cand = NoCommit, !.candSynced = NoCommit, !.candState = NoCommit, !.committed = NoCommit,
-                      !.lastSyncT = -1, !.shutdown = FALSE]
+                      !.lastSyncT = -1, !.shutdown = FALSE, !.listedSnap = {}, !.listed = {}]
 
 Panic ==
     /\ Ev.ev = "Panic"
